@@ -42,7 +42,7 @@ type solverSpec struct {
 var solvers = map[string]solverSpec{
 	"z3-new": {"z3-new", []string{"z3-new", "-smt2"}},
 	"z3":     {"z3", []string{"z3", "-smt2"}},
-	"cvc5":   {"cvc5", []string{"cvc5", "--lang=smt2"}},
+	"cvc5":   {"cvc5", []string{"cvc5", "--lang=smt2", "-q"}},
 }
 
 func runSolver(ctx context.Context, s solverSpec, file string, timeout time.Duration) (status string, out string, dur float64) {
@@ -100,40 +100,52 @@ type prepared struct {
 	q       *Query
 	id      int
 	trivial bool
-	fqf     string // instantiated, quantifier-free where possible
-	fq      string // with quantifiers kept (only when the original has quantifiers)
-	qfHasQ  bool
+	as      []*smt.Term // hypotheses, global facts, negated goal
+	hasQ    bool
+	base    string
+	nfresh  int
+	files   []string
 }
 
-// prepare writes the solver input files of a query (sequential: term construction is not thread-safe).
+// genMu serialises term construction and printing (the smt package is not thread-safe).
+var genMu sync.Mutex
+
 func (p *Prog) prepare(q *Query, cfg SolveConfig, id int) *prepared {
-	pr := &prepared{q: q, id: id}
+	pr := &prepared{q: q, id: id, base: filepath.Join(cfg.WorkDir, fmt.Sprintf("q%05d", id))}
 	if q.Goal.IsTrue() && !q.Cover {
 		pr.trivial = true
 		return pr
 	}
-	as := p.assemble(q)
-	n := 0
-	fresh := func(prefix string, s *smt.Sort) *smt.Term {
-		n++
-		return smt.Const(fmt.Sprintf("%s!%d", prefix, n), s)
-	}
-	base := filepath.Join(cfg.WorkDir, fmt.Sprintf("q%05d", id))
-	write := func(suffix string, asserts []*smt.Term, models bool) string {
-		txt := "; " + q.Ob + " path " + fmt.Sprint(q.PathNo) + " " + q.Pos.String() + "\n" + p.D.Script(asserts, smt.ScriptOpts{ProduceModels: models})
-		f := base + suffix + ".smt2"
-		_ = os.WriteFile(f, []byte(txt), 0o644)
-		return f
-	}
-	inst := &smt.Inst{Fresh: fresh}
-	qf := inst.Prepare(as)
-	pr.qfHasQ = smt.HasQuant(qf...)
-	pr.fqf = write(".qf", qf, !q.Cover)
-	if !q.Cover && smt.HasQuant(as...) {
-		inst2 := &smt.Inst{Fresh: fresh, KeepQuant: true}
-		pr.fq = write(".q", inst2.Prepare(as), false)
-	}
+	genMu.Lock()
+	defer genMu.Unlock()
+	pr.as = p.assemble(q)
+	pr.hasQ = smt.HasQuant(pr.as...)
 	return pr
+}
+
+// gen writes the solver input for one instantiation level: rounds < 0 keeps the quantifiers
+// (next to 2 rounds of instances); rounds >= 0 is quantifier-free with that many rounds.
+func (p *Prog) gen(pr *prepared, rounds int) (file string, stillQuant bool) {
+	genMu.Lock()
+	defer genMu.Unlock()
+	fresh := func(prefix string, s *smt.Sort) *smt.Term {
+		pr.nfresh++
+		return smt.Const(fmt.Sprintf("%s!%d", prefix, pr.nfresh), s)
+	}
+	inst := &smt.Inst{Fresh: fresh, Rounds: rounds, NoInst: rounds == 0}
+	suffix := fmt.Sprintf(".l%d", rounds)
+	if rounds < 0 {
+		inst = &smt.Inst{Fresh: fresh, Rounds: 2, KeepQuant: true}
+		suffix = ".q"
+	}
+	asserts := smt.Propagate(smt.TightenCompares(smt.Propagate(inst.Prepare(smt.Propagate(pr.as)))))
+	q := pr.q
+	txt := "; " + q.Ob + " path " + fmt.Sprint(q.PathNo) + " " + q.Pos.String() + "\n; " + q.Desc + "\n" +
+		p.D.Script(asserts, smt.ScriptOpts{ProduceModels: !q.Cover && rounds >= 0})
+	f := pr.base + suffix + ".smt2"
+	_ = os.WriteFile(f, []byte(txt), 0o644)
+	pr.files = append(pr.files, f)
+	return f, smt.HasQuant(asserts...)
 }
 
 // solve runs the solver portfolio on a prepared query.
@@ -147,15 +159,15 @@ func (p *Prog) solve(pr *prepared, cfg SolveConfig) *Outcome {
 	ctx := context.Background()
 	cleanup := func() {
 		if !cfg.Keep {
-			os.Remove(pr.fqf)
-			if pr.fq != "" {
-				os.Remove(pr.fq)
+			for _, f := range pr.files {
+				os.Remove(f)
 			}
 		}
 	}
 	if q.Cover {
-		st, out, d := runSolver(ctx, solvers["z3-new"], pr.fqf, cfg.Timeout)
-		o.Time, o.Backend, o.File = d, "z3-new", pr.fqf
+		f, _ := p.gen(pr, 2)
+		st, out, d := runSolver(ctx, solvers["z3-new"], f, cfg.Timeout)
+		o.Time, o.Backend, o.File = d, "z3-new", f
 		switch st {
 		case "sat":
 			o.Status = "covered"
@@ -171,10 +183,9 @@ func (p *Prog) solve(pr *prepared, cfg SolveConfig) *Outcome {
 		}
 		return o
 	}
-	o.File = pr.fqf
 	var mu sync.Mutex
-	run := func(sv, file, tag string) string {
-		st, out, d := runSolver(ctx, solvers[sv], file, cfg.Timeout)
+	run := func(sv, file, tag string, tmo time.Duration) string {
+		st, out, d := runSolver(ctx, solvers[sv], file, tmo)
 		mu.Lock()
 		defer mu.Unlock()
 		o.Time += d
@@ -182,7 +193,7 @@ func (p *Prog) solve(pr *prepared, cfg SolveConfig) *Outcome {
 		if st == "unsat" && o.Status != "proved" {
 			o.Status, o.Backend = "proved", tag
 		}
-		if st == "sat" && o.Model == "" && file == pr.fqf {
+		if st == "sat" {
 			o.Model = out
 		}
 		if st != "unsat" {
@@ -190,31 +201,90 @@ func (p *Prog) solve(pr *prepared, cfg SolveConfig) *Outcome {
 		}
 		return st
 	}
-	st1 := run("z3-new", pr.fqf, "z3-new")
-	if st1 != "unsat" {
-		var wg sync.WaitGroup
-		if st1 != "sat" {
-			wg.Add(2)
-			go func() { defer wg.Done(); run("cvc5", pr.fqf, "cvc5") }()
-			go func() { defer wg.Done(); run("z3", pr.fqf, "z3") }()
+	// instantiation levels: most obligations need none or few of the quantified facts
+	levels := []int{0, 1, 2, 4}
+	if !pr.hasQ {
+		levels = []int{0}
+	}
+	last, lastFile := "", ""
+	for i, lv := range levels {
+		f, _ := p.gen(pr, lv)
+		tmo := cfg.Timeout
+		if i < len(levels)-1 && tmo > 4*time.Second {
+			tmo = 4 * time.Second
 		}
-		if pr.fq != "" {
+		// race z3-new and cvc5; the first "unsat" cancels the other
+		rctx, cancel := context.WithCancel(ctx)
+		res := make(chan [2]string, 2)
+		race := func(sv string) {
+			st, out, d := runSolver(rctx, solvers[sv], f, tmo)
+			mu.Lock()
+			if rctx.Err() == nil || st == "unsat" || st == "sat" {
+				o.Time += d
+				o.Tried = append(o.Tried, fmt.Sprintf("%s/L%d:%s:%.2fs", sv, lv, st, d))
+				if st == "unsat" && o.Status != "proved" {
+					o.Status, o.Backend = "proved", sv
+				}
+				if st == "sat" && sv == "z3-new" {
+					o.Model = out
+				}
+				if st != "unsat" {
+					o.Detail += fmt.Sprintf("[%s/L%d] %s\n", sv, lv, strings.TrimSpace(firstLine(out)))
+				}
+			}
+			mu.Unlock()
+			if st == "unsat" || st == "sat" {
+				cancel()
+			}
+			res <- [2]string{sv, st}
+		}
+		go race("z3-new")
+		go race("cvc5")
+		r1, r2 := <-res, <-res
+		cancel()
+		last, lastFile = "unknown", f
+		for _, r := range [][2]string{r1, r2} {
+			if r[1] == "unsat" {
+				last = "unsat"
+			}
+		}
+		if last != "unsat" {
+			for _, r := range [][2]string{r1, r2} {
+				if r[1] == "sat" {
+					last = "sat"
+				}
+			}
+		}
+		o.File = f
+		if last == "unsat" {
+			break
+		}
+	}
+	if last != "unsat" {
+		var wg sync.WaitGroup
+		qst := ""
+		if last != "sat" {
 			wg.Add(1)
-			go func() { defer wg.Done(); run("z3-new", pr.fq, "z3-new(quantified)") }()
+			go func() { defer wg.Done(); run("z3", lastFile, "z3", cfg.Timeout) }()
+		}
+		if pr.hasQ {
+			fq, _ := p.gen(pr, -1)
+			wg.Add(1)
+			go func() { defer wg.Done(); qst = run("z3-new", fq, "z3-new(quantified)", cfg.Timeout) }()
 		}
 		wg.Wait()
 		if o.Status != "proved" {
 			switch {
-			case st1 == "sat" && pr.fq == "":
+			case last == "sat" && (!pr.hasQ || qst == "sat"):
 				o.Status = "refuted"
-			case st1 == "sat":
+			case last == "sat":
 				o.Status = "refuted-candidate" // sat on the instantiated weakening of the hypotheses
 			default:
 				o.Status = "unknown"
 			}
 		}
-	} else if cfg.Confirm && !pr.qfHasQ {
-		st2, _, d2 := runSolver(ctx, solvers["cvc5"], pr.fqf, cfg.Timeout)
+	} else if cfg.Confirm && !pr.hasQ {
+		st2, _, d2 := runSolver(ctx, solvers["cvc5"], lastFile, cfg.Timeout)
 		o.Tried = append(o.Tried, fmt.Sprintf("cvc5(confirm):%s:%.2fs", st2, d2))
 		if st2 == "sat" {
 			o.Status = "engine-error"
@@ -233,6 +303,24 @@ func (p *Prog) SolveAll(qs []*Query, cfg SolveConfig) []*Outcome {
 		cfg.Jobs = 12
 	}
 	_ = os.MkdirAll(cfg.WorkDir, 0o755)
+	// a conjunctive goal is proved conjunct by conjunct, each one assuming the earlier ones
+	var split []*Query
+	for _, q := range qs {
+		if q.Cover || q.Goal.Op != "and" {
+			split = append(split, q)
+			continue
+		}
+		hyps, labs := q.Hyps, q.HypLabs
+		for i, g := range q.Goal.Args {
+			nq := *q
+			nq.Hyps, nq.HypLabs, nq.Goal = hyps, labs, g
+			nq.Desc = fmt.Sprintf("%s [conjunct %d/%d]", q.Desc, i+1, len(q.Goal.Args))
+			split = append(split, &nq)
+			hyps = append(append([]*smt.Term{}, hyps...), g)
+			labs = append(append([]string{}, labs...), "earlier conjunct of the goal")
+		}
+	}
+	qs = split
 	out := make([]*Outcome, len(qs))
 	var wg sync.WaitGroup
 	sem := make(chan struct{}, cfg.Jobs)
